@@ -850,7 +850,9 @@ impl<'i, I: Interner> DisplayUnsat<'i, I> {
                 DisplayOp::Candidate(candidate) => {
                     let solvable_id = graph[candidate].solvable_or_root();
 
-                    if reported.contains(&solvable_id) {
+                    // Every solvable is reported at most once. This also guarantees
+                    // termination for cyclic dependencies.
+                    if !reported.insert(solvable_id) {
                         continue;
                     }
 
